@@ -489,6 +489,11 @@ func (i *interpreter) urlUnescapeSym(fr *frame, s symStr, plusIsSpace bool) valu
 }
 
 func init() {
+	summaries["path/filepath.IsAbs"] = func(fr *frame, a []value) value {
+		checkNoOpaque("filepath.IsAbs", a...)
+		return fr.i.hasPrefixSym(toSymStr(a[0]), toSymStr("/")) // unix
+	}
+	summaries["path/filepath.ToSlash"] = func(fr *frame, a []value) value { return a[0] } // unix: identity
 	summaries["net/url.QueryUnescape"] = func(fr *frame, a []value) value {
 		checkNoOpaque("url.QueryUnescape", a...)
 		return fr.i.urlUnescapeSym(fr, toSymStr(a[0]), true)
